@@ -118,8 +118,8 @@ EngineWrite(k) ==
           THEN /\ mon' = Step(mon, o)
                /\ s' = IF terminal THEN [s EXCEPT !.reg[id] = 0] ELSE s
           ELSE mon' = mon /\ s' = s
-     ELSE /\ mon' = IF s.closed THEN mon ELSE Step(mon, o)
-          /\ s' = s
+     ELSE /\ mon' = IF s.closed \/ (Has("D8b") /\ s.ex[k].canc) THEN mon ELSE Step(mon, o)
+          /\ s' = IF Has("F5") /\ terminal /\ s.ex[k].kind = "q" /\ s.reg[id] = k THEN [s EXCEPT !.reg[id] = 0] ELSE s
   /\ eq' = [eq EXCEPT ![k] = Tail(eq[k])]
   /\ UNCHANGED <<hq, hbusy, ew, nin, neng, pos, gone>>
 
